@@ -12,7 +12,7 @@ def setup(seed):
     models = [emg3d.Model(grid, rng.uniform(0.5, 3.0, grid.shape_cells)), emg3d.Model(grid, rng.uniform(0.5, 3.0, grid.shape_cells))]
     src = {'TxED-1': emg3d.TxElectricDipole((-55.0, 10.0, -160.0, 20, 5))}
     rec = {'RxEP-1': emg3d.RxElectricPoint((45.0, 15.0, -150.0, 0, 0)), 'RxEP-2': emg3d.RxElectricPoint((70.0, -35.0, -170.0, 30, 10))}
-    survey = emg3d.Survey(sources=src, receivers=rec, frequencies=[1.0], noise_floor=1e-14, relative_error=0.05)
+    survey = emg3d.Survey(sources=src, receivers=rec, frequencies=[1.0, 2.5], noise_floor=1e-14, relative_error=0.05)
     true = emg3d.Model(grid, rng.uniform(0.5, 3.0, grid.shape_cells))
     s0 = new_sim(survey, true)
     s0.compute(observed=True, add_noise=False)
@@ -74,7 +74,7 @@ def check(tier='quick', seed=0):
     refs = [reference(survey, m) for m in models]
     rng = np.random.default_rng(seed + 17)
     nseq, maxlen = (14, 5) if tier == 'quick' else (80, 8)
-    fixed = [['misfit', 'jtvec', 'gradient'], ['gradient', 'clean_computed', 'compute'], ['misfit', 'clean_keepresults', 'gradient'],
+    fixed = [['get_efield', 'misfit', 'gradient'], ['misfit', 'jtvec', 'gradient'], ['gradient', 'clean_computed', 'compute'], ['misfit', 'clean_keepresults', 'gradient'],
              ['gradient', 'model_update', 'compute'], ['gradient', 'copy', 'model_update'], ['compute', 'misfit', 'gradient', 'clean_computed', 'get_efield']]
     cases = 0
     for k in range(nseq):
